@@ -18,6 +18,9 @@ Pool == { [qt |-> "length", u |-> "m",  f |-> <<1, 1>>,    x |-> <<1, 1>>],
           [qt |-> "length", u |-> "m",  f |-> <<1, 1>>,    x |-> <<1000, 1>>],
           [qt |-> "length", u |-> "cm", f |-> <<1, 100>>,  x |-> <<150, 1>>],
           [qt |-> "length", u |-> "km", f |-> <<1000, 1>>, x |-> <<-1, 2>>],
+          [qt |-> "length", u |-> "m",  f |-> <<1, 1>>,    x |-> <<3, 2>>],       \* = 150 cm, written with a fractional part
+          [qt |-> "time",   u |-> "min", f |-> <<60, 1>>,  x |-> <<5, 2>>],
+          [qt |-> "time",   u |-> "s",  f |-> <<1, 1>>,    x |-> <<150, 1>>],
           [qt |-> "time",   u |-> "s",  f |-> <<1, 1>>,    x |-> <<60, 1>>],
           [qt |-> "time",   u |-> "min", f |-> <<60, 1>>,  x |-> <<1, 1>>],
           [qt |-> "time",   u |-> "min", f |-> <<60, 1>>,  x |-> <<2, 1>>],
